@@ -196,7 +196,8 @@ def _check_case(case, res, count=True):
 
         graphs = []
         try:
-            g0 = LanguageGraph(given)
+            from ..stream import language_graph_by_route
+            g0, given = language_graph_by_route(case, given)     # constructor, .mar archive, saved specification or MAL source
         except Exception as exc:
             return ('build:raised-%s' % type(exc).__name__, 'LanguageGraph() raised %r on a well-formed language' % (exc,))
         graphs.append(g0)
